@@ -26,33 +26,94 @@ package types
 //@ loop validateSubDistributors#1
 //@   invariant 0 <= \i && \i <= len(subDistributors) && allRefsOK(subDistributors, \i) && shareListsBounded(subDistributors)
 //@ // the ordering check over the whole list: occurrence maps keyed by account id; no claim beyond panic-freedom
+//@ // ---- the ordering rule for the main account (C03: "the books equal the balance" needs it) ----
+//@ // The validation walks the sub distributors in order and records, per account, whether its last occurrence was as a SOURCE
+//@ // or as a DESTINATION (sources first, then the primary share, then the named shares). occMain: some account of the list
+//@ // (ptrs / o / n, typ: the account-type column) is the main account.
+//@ spec func occMain(ptrs [int]int, typ [int]str, o int, n int) bool = n <= 0 ? false : (occMain(ptrs, typ, o, n - 1) || typ[ptrs[o + n - 1]] == "MAIN")
+//@ // loMain: what the occurrence map holds for "MAIN" after the first n sub distributors ("" = never seen)
+//@ spec func loMain(sArr [int]int, sOff [int]int, sLen [int]int, accRows [int][int]int, accTyp [int]str, pTyp [int]str,
+//@     dArr [int]int, dOff [int]int, dLen [int]int, dsRows [int][int]int, dsTyp [int]str, o int, n int) str =
+//@   n <= 0 ? "" :
+//@   (occMain(dsRows[dArr[o + n - 1]], dsTyp, dOff[o + n - 1], dLen[o + n - 1]) ? "DESTINATION" :
+//@   (pTyp[o + n - 1] == "MAIN" ? "DESTINATION" :
+//@   (occMain(accRows[sArr[o + n - 1]], accTyp, sOff[o + n - 1], sLen[o + n - 1]) ? "SOURCE" :
+//@    loMain(sArr, sOff, sLen, accRows, accTyp, pTyp, dArr, dOff, dLen, dsRows, dsTyp, o, n - 1))))
+//@ pred loMainOf(sds, n) = loMain(fieldRow(sds, "Sources.arr"), fieldRow(sds, "Sources.off"), fieldRow(sds, "Sources.len"),
+//@     rowsOf("*types.Account"), heapOf("types.Account", "Type"), fieldRow(sds, "Destinations.PrimaryShare.Type"),
+//@     fieldRow(sds, "Destinations.Shares.arr"), fieldRow(sds, "Destinations.Shares.off"), fieldRow(sds, "Destinations.Shares.len"),
+//@     rowsOf("*types.DestinationShare"), heapOf("types.DestinationShare", "Destination.Type"), off(sds), n)
+//@ pred sourcesHaveMain(srcs, n) = occMain(elemRow(srcs), heapOf("types.Account", "Type"), off(srcs), n)
+//@ pred sharesHaveMain(shs, n) = occMain(elemRow(shs), heapOf("types.DestinationShare", "Destination.Type"), off(shs), n)
+//@ // accepted configurations end with the main account as a SOURCE: the last sub distributor that touches it takes it as input
 //@ func ValidateSubDistributors(subDistributors) (err)
 //@   requires allRefsOK(subDistributors, len(subDistributors)) && len(subDistributors) < 1000000000
-//@   prop C20
+//@   ensures [main-last-a-source] err == nil ==> loMainOf(subDistributors, len(subDistributors)) == "SOURCE"
+//@   prop C20 C03 C13
 //@ loop ValidateSubDistributors#1
 //@   invariant 0 <= \i && \i <= len(subDistributors) && len(subDistributors) < 1000000000
+//@   invariant arr(lastOccurrence) != 0 && arr(lastOccurrenceIndex) != 0 && arr(subDistributorNameOccurred) != 0 && arr(shareNameOccurred) != 0
+//@   invariant lookup(lastOccurrence, "MAIN") == loMainOf(subDistributors, \i)
 //@ func setOccurrence(lastOccurrence, lastOccurrenceIndex, subDistributorName, account, position, accountType) (err)
 //@   requires account != nil && position < 1000000000 && arr(lastOccurrence) != 0 && arr(lastOccurrenceIndex) != 0
 //@   modifies elems(lastOccurrence), elems(lastOccurrenceIndex)
-//@   prop C20
+//@   // the key of an account that is not the main account is "<type>-<id>": never "MAIN"
+//@   ensures [main] err == nil ==> lookup(lastOccurrence, "MAIN") == (account.Type == "MAIN" ? accountType : old(lookup(lastOccurrence, "MAIN")))
+//@   prop C20 C03 C13
 //@ func validateUniquenessOfNames(subDistributorName, nameOccurred) (err)
 //@   requires arr(nameOccurred) != 0
 //@   modifies elems(nameOccurred)
 //@   prop C20
 //@ func validateSources(accounts, subDistributorIndex, lastOccurrence, lastOccurrenceIndex, subDistributorName, accountType) (err)
-//@   inline
+//@   requires (forall k: int :: {accounts[k]} 0 <= k && k < len(accounts) ==> accounts[k] != nil) && subDistributorIndex < 1000000000
+//@   requires arr(lastOccurrence) != 0 && arr(lastOccurrenceIndex) != 0
+//@   modifies elems(lastOccurrence), elems(lastOccurrenceIndex)
+//@   ensures [main] err == nil ==> lookup(lastOccurrence, "MAIN") == (sourcesHaveMain(accounts, len(accounts)) ? accountType : old(lookup(lastOccurrence, "MAIN")))
+//@   prop C20 C03 C13
 //@ loop validateSources#1
 //@   invariant 0 <= \i && \i <= len(accounts)
+//@   invariant lookup(lastOccurrence, "MAIN") == (sourcesHaveMain(accounts, \i) ? accountType : old(lookup(lastOccurrence, "MAIN")))
 //@ func validateDestinationsShares(shares, subDistributorIndex, lastOccurrence, lastOccurrenceIndex, shareNameOccurred, subDistributorName, accountType) (err)
-//@   inline
+//@   requires (forall k: int :: {shares[k]} 0 <= k && k < len(shares) ==> shares[k] != nil) && subDistributorIndex < 1000000000
+//@   requires arr(lastOccurrence) != 0 && arr(lastOccurrenceIndex) != 0 && arr(shareNameOccurred) != 0
+//@   modifies elems(lastOccurrence), elems(lastOccurrenceIndex), elems(shareNameOccurred)
+//@   ensures [main] err == nil ==> lookup(lastOccurrence, "MAIN") == (sharesHaveMain(shares, len(shares)) ? accountType : old(lookup(lastOccurrence, "MAIN")))
+//@   prop C20 C03 C13
 //@ loop validateDestinationsShares#1
 //@   invariant 0 <= \i && \i <= len(shares)
+//@   invariant lookup(lastOccurrence, "MAIN") == (sharesHaveMain(shares, \i) ? accountType : old(lookup(lastOccurrence, "MAIN")))
+//@ // The final sweep: the keys of the occurrence map are collected (map iteration: any order, every key exactly once), sorted,
+//@ // and every entry must be SOURCE. strIn: k is among the first n strings of a list; allSource: the first n listed keys map to SOURCE.
+//@ spec func strIn(row [int]str, o int, n int, k str) bool = n <= 0 ? false : (strIn(row, o, n - 1, k) || row[o + n - 1] == k)
+//@ spec func allSource(row [int]str, o int, n int, has [str]bool, val [str]str) bool =
+//@   n <= 0 ? true : (allSource(row, o, n - 1, has, val) && has[row[o + n - 1]] && val[row[o + n - 1]] == "SOURCE")
+//@ lemma strInStoreFrame(row [int]str, o int, n int, k str, pos int, v str)
+//@   induction n
+//@   requires n >= 0 && pos >= o + n
+//@   ensures strIn(store(row, pos, v), o, n, k) == strIn(row, o, n, k)
+//@   prop C03
+//@ lemma inAllSource(row [int]str, o int, n int, has [str]bool, val [str]str, k str)
+//@   induction n
+//@   requires n >= 0 && strIn(row, o, n, k) && allSource(row, o, n, has, val)
+//@   ensures has[k] && val[k] == "SOURCE"
+//@   prop C03
+//@ // canary: without the sweep having covered the list the claim must not be provable
+//@ lemma inAllSourceCanary(row [int]str, o int, n int, has [str]bool, val [str]str, k str)
+//@   requires n >= 0 && strIn(row, o, n, k)
+//@   ensures has[k] && val[k] == "SOURCE"
+//@   expect fail
+//@   prop C03
 //@ func validateLastOccurrence(lastOccurrence) (err)
-//@   inline
+//@   uses forall row: [int]str, n: int :: {strIn(row, 0, n, "MAIN")} inAllSource(row, 0, n, keysOf(lastOccurrence), valsOf(lastOccurrence), "MAIN")
+//@   ensures [main-is-source] err == nil ==> lookup(lastOccurrence, "MAIN") == "SOURCE"
+//@   prop C20 C03 C13
 //@ loop validateLastOccurrence#1
-//@   invariant true
+//@   invariant off(accountIds) == 0 && len(accountIds) >= 0
+//@   invariant forall k: str :: {\yielded[k]} \yielded[k] ==> strIn(elemRow(accountIds), 0, len(accountIds), k)
+//@   uses forall row: [int]str, n: int, k: str, pos: int, v: str :: {strIn(store(row, pos, v), 0, n, k)} strInStoreFrame(row, 0, n, k, pos, v)
 //@ loop validateLastOccurrence#2
-//@   invariant 0 <= \i && \i <= len(accountIds)
+//@   invariant 0 <= \i && \i <= len(accountIds) && off(accountIds) == 0
+//@   invariant allSource(elemRow(accountIds), 0, \i, keysOf(lastOccurrence), valsOf(lastOccurrence))
 
 //@ // ---- validation of one sub distributor: what Validate establishes (C10: the distribution arithmetic relies on it) ----
 //@ // sum of the first n shares of a share list (ptrs: element row of the list, shr: DestinationShare.Share column, o: offset)
